@@ -765,6 +765,16 @@ func (w *w4) opHTTPMultipart(id, seq int, op simrt.Op, rr *rand.Rand) {
 			simrt.Sleep(time.Duration(rr.IntN(30)) * time.Second)
 		}
 		path := fmt.Sprintf("/lfs/uploads/%s/parts/%d", initResp.UploadID, i+1)
+		if rr.IntN(8) == 0 {
+			// an impatient client: the same part is sent a second time while the first attempt is still on
+			// its way (the second request runs as a task of its own)
+			dup := append([]byte(nil), p...)
+			w.sim.Probe("c32.part-sent-twice-concurrently")
+			simrt.Go("dup-part", func() {
+				simrt.Sleep(time.Duration(rr.IntN(3)) * time.Millisecond)
+				_ = w.httpDo(w.lfs.handleHTTPUploadSession, http.MethodPut, path, nil, &w5body{r: bytes.NewReader(dup), failAt: -1}, int64(len(dup)))
+			})
+		}
 		rec := w.httpDo(w.lfs.handleHTTPUploadSession, http.MethodPut, path, nil, &w5body{r: bytes.NewReader(p), failAt: -1}, int64(len(p)))
 		if simrt.Dying() {
 			return
@@ -773,7 +783,15 @@ func (w *w4) opHTTPMultipart(id, seq int, op simrt.Op, rr *rand.Rand) {
 			w.sim.Probe("c32.part-refused")
 			// retry once (S3 hiccup), then give up on this session
 			rec = w.httpDo(w.lfs.handleHTTPUploadSession, http.MethodPut, path, nil, &w5body{r: bytes.NewReader(p), failAt: -1}, int64(len(p)))
-			if simrt.Dying() || rec.Code != 200 {
+			if simrt.Dying() {
+				return
+			}
+			if rec.Code != 200 {
+				if len(got) > 0 && rr.IntN(2) == 0 {
+					// the client gives up on this part and asks for completion with what it has
+					w.sim.Probe("c32.completion-after-refused-part")
+					break
+				}
 				return
 			}
 		}
